@@ -125,8 +125,8 @@ class SdpTask:
         except Exception as e:  # noqa: BLE001
             rec["notes"].append(f"replay failed: {type(e).__name__}: {e}")
             return
-        if want is None:
-            rec["notes"].append("reference program could not be solved for replay")
+        if want is None or not np.isfinite(want) or not np.isfinite(got):
+            rec["notes"].append(f"reference program could not be solved for replay (reference {want}, real function {got})")
             return
         if abs(got - want) > self.tol:
             rec["status"] = "violation"
@@ -303,4 +303,8 @@ def solve_reference(R, ctx):
         val = prob.solve(solver=cvxpy.CLARABEL)
     except Exception:  # noqa: BLE001
         val = prob.solve(solver=cvxpy.SCS, eps=1e-8)
-    return None if val is None else float(val)
+    # an infeasible / unbounded reference (e.g. written over captured variables of a different formulation) is not an optimum to
+    # compare with: the caller reports "could not be solved", never a discrepancy
+    if val is None or prob.status not in ("optimal", "optimal_inaccurate") or not np.isfinite(val):
+        return None
+    return float(val)
